@@ -9,6 +9,7 @@
 #include <iostream>
 #include <memory>
 #include <sstream>
+#include <functional>
 #include <string>
 #include <string_view>
 #include <vector>
@@ -137,16 +138,30 @@ struct Uni final : IUni {
         }
         if (op == "apply") {
             const std::string &fn = t.at(1);
+            // apply() accepts every callable invocable with T& and ignores what it returns: the same function is passed as a callable
+            // returning nothing, an int (0 / non-zero), the value itself by reference, a bool or a pointer that says the opposite of
+            // "the value changed" half of the time, and as a std::function
+            auto via = [&](auto f) {
+                bool flip = (nops % 12) < 6;
+                switch (nops % 6) {
+                    case 0: obs.apply(f); break;
+                    case 1: obs.apply([&](T &v) -> int { f(v); return flip ? 0 : 7; }); break;
+                    case 2: obs.apply([&](T &v) -> T & { f(v); return v; }); break;
+                    case 3: obs.apply([&](T &v) -> bool { f(v); return flip; }); break;
+                    case 4: obs.apply([&](T &v) -> const void * { f(v); return flip ? nullptr : static_cast<const void *>(&v); }); break;
+                    default: { std::function<void(T &)> g = f; obs.apply(g); break; }
+                }
+            };
             if constexpr (std::is_same_v<T, std::string>) {
-                if (fn == "id") obs.apply([](T &) {});
-                else if (fn == "clr") obs.apply([](T &v) { v.clear(); });
-                else if (fn == "dup") obs.apply([](T &v) { v += std::string(v); });
+                if (fn == "id") via([](T &) {});
+                else if (fn == "clr") via([](T &v) { v.clear(); });
+                else if (fn == "dup") via([](T &v) { v += std::string(v); });
                 else return "!PRECOND";
             } else {
-                if (fn == "id") obs.apply([](T &) {});
-                else if (fn == "neg") obs.apply([](T &v) { v = -v; });
-                else if (fn == "zero") obs.apply([](T &v) { v = 0; });
-                else if (fn == "dbl") obs.apply([](T &v) { v += v; });
+                if (fn == "id") via([](T &) {});
+                else if (fn == "neg") via([](T &v) { v = -v; });
+                else if (fn == "zero") via([](T &v) { v = 0; });
+                else if (fn == "dbl") via([](T &v) { v += v; });
                 else return "!PRECOND";
             }
             return finish("-");
